@@ -22,7 +22,7 @@ from ..model import AnalysisError
 from ..tables import routing as T
 from .C01 import mask_root, monotone, match_all
 
-FLOOR = 122
+FLOOR = 155
 EXPLANATION = (
     "Static analysis over all 21 env classes: (a) indicator cells are updated monotonically; (b) the boolean structure of each "
     "variable-length env's mask is evaluated three-valued under the assumption 'no other column open' / 'done' and must yield "
